@@ -156,4 +156,14 @@ PROPS = {
         modelled=["modelled, not verified: fs.WalkDir order (lexicographic on path components), strings.ToLower/HasSuffix, config.ParseConfig outcome classes (observed: the harness marks which files are configurations)"],
         assumptions=[],
     ),
+    "C17": dict(
+        modules=["Gopki.Props.C17"], theorems=[], ops=["pkcs8", "pemfile"],
+        rule="pkcs8: ten curves x scalars {1, 2, 255, 256, n-1, n/2, 2^(8(w-1)), 2^(8(w-1))-1, 2^(8(w-2)), 20 (thorough 200) random incl. 1-3 leading zero octets} written by gopki and read back (also through PEM, and by crypto/x509 for NIST curves), "
+             "the same scalars in six foreign forms (parameters inner-only / both / none / unknown curve, stripped and padded scalars), crypto/x509-written keys, invalid scalars 0, n, n+1, 2^(8w)-1, RSA 1024/2048 (thorough 3072/4096) both directions, "
+             "1500 (thorough 30000) single-byte mutations of a valid key; pemfile: all 16 combinations of hash line / certificate / key / request in two orders for three key types, and torn prefixes at every block boundary +-2 and 64 random offsets (thorough: every offset); "
+             "non-trivial = input accepted as a key / file with at least one block",
+        modelled=["modelled, not verified: encoding/asn1 Unmarshal (strict DER decoding in the model; its tolerance for unknown optional members on arbitrary bytes is not mirrored), encoding/pem (observed through block boundaries), "
+                  "curve arithmetic (ScalarBaseMult, IsOnCurve) and rsa.Validate: checked by the harness with the standard library"],
+        assumptions=["the public point of a key is d*G (checked by the harness for every key read)"],
+    ),
 }
